@@ -69,6 +69,10 @@ def overlap_free(rules):
     return all(a[2] <= b[1] for a, b in zip(srt, srt[1:]))
 
 
+DISTINCT = set()      # hashes of the distinct non-trivial tables seen by this run
+CHUNK = 40000         # cases per batch: bounds the memory of a thorough run
+
+
 def evaluate(cases, rep):
     impl = common.run_worker("worker_c16", cases)
     model = common.run_model([common.sx(["c16", with_size(c)]) for c in cases])
@@ -77,7 +81,7 @@ def evaluate(cases, rep):
     chk = common.run_model([common.sx(["c16", "chk", with_size(cases[i]), impl[i][1][1]]) for i in chk_idx])
     chk_res = dict(zip(chk_idx, chk))
     stats = {"accepted": 0, "rejected": 0, "merging": 0, "drift": 0}
-    distinct = set()
+    distinct = DISTINCT
     for i, (c, im, mo) in enumerate(zip(cases, impl, model)):
         m_con, m_trim = mo
         ok_i = im[0] == ["ok"]
@@ -104,7 +108,7 @@ def evaluate(cases, rep):
         out = im[1][1]
         if len(out) < len(c):
             stats["merging"] += 1
-            distinct.add(common.canon(c))
+            distinct.add(hash(common.canon(c)))
         if chk_res[i] is not True:
             rep.fail("C16:trim:checker", f"trim() of {c} returned {out}: not decode-equivalent / overlap-free / "
                      f"size-consistent / free of touching same-port rules (certified checker chk_C16 = false); "
@@ -118,7 +122,12 @@ def evaluate(cases, rep):
 
 def run(tier, seed, rep, replay=None):
     cases = [replay["case"]["rules"]] if replay else gen_cases(tier, seed)
-    stats = evaluate(cases, rep)
+    stats = {"accepted": 0, "rejected": 0, "merging": 0, "drift": 0}
+    for lo in range(0, len(cases), CHUNK):
+        part = evaluate(cases[lo:lo + CHUNK], rep)
+        for k in stats:
+            stats[k] += part[k]
+        stats["distinct"] = part["distinct"]
     rep.notes[:] = rep.notes[:5]
     rep.coverage.update({
         "evaluations": len(cases),
